@@ -44,6 +44,11 @@ type Case struct {
 	// SameRoot (same source and destination element type only): both windows are cut from
 	// one parent buffer, the destination window Src.Kr frames behind the source's root part.
 	SameRoot bool `json:"sameRoot,omitempty"`
+	// Nest (SameRoot only): how the two windows are reached. 0 = one Slice each; 1 = two Slice
+	// calls each (own intermediate windows); 2 = three Slice calls each; 3 = two Slice calls each,
+	// both chains starting with an outer window that begins at the same frame (separate headers);
+	// 4 = as 3 through one shared outer header.
+	Nest int `json:"nest,omitempty"`
 	// Hist (history mode, see history.go): instantiation keys "S/D" run in this order over
 	// their fixed probe sets in a fresh process; every other field is ignored.
 	Hist []string `json:"hist,omitempty"`
@@ -206,13 +211,52 @@ func Check(c *Case) (res kit.Result) {
 	return
 }
 
+// nested cuts frames [a,b) of root (total frames) with depth Slice calls whose starts add up to a.
+func nested(root kit.AnyBuf, total, a, b, depth int) kit.AnyBuf {
+	w, off := root, 0
+	for d := depth; d > 1; d-- {
+		p := (a - off) / d
+		if (a-off)%d != 0 {
+			p++
+		}
+		w = w.Slice(p, total-off)
+		off += p
+	}
+	return w.Slice(a-off, b-off)
+}
+
+// nestedPair cuts the frames [sa,sb) and [da,db) of root in the way Case.Nest says.
+func nestedPair(root kit.AnyBuf, total, sa, sb, da, db, nest int) (src, dst kit.AnyBuf) {
+	switch nest {
+	case 1:
+		return nested(root, total, sa, sb, 2), nested(root, total, da, db, 2)
+	case 2:
+		return nested(root, total, sa, sb, 3), nested(root, total, da, db, 3)
+	case 3, 4:
+		m := kit.Min(sa, da)
+		if m > 0 {
+			m -= m / 3
+		}
+		o1 := root.Slice(m, total)
+		o2 := o1
+		if nest == 3 {
+			o2 = root.Slice(m, total)
+		}
+		// a further level for the later window, so that the starts inside the outer window differ in depth too
+		if sa >= da {
+			return o1.Slice((sa-m)/2, total-m).Slice(sa-m-(sa-m)/2, sb-m-(sa-m)/2), o2.Slice(da-m, db-m)
+		}
+		return o1.Slice(sa-m, sb-m), o2.Slice((da-m)/2, total-m).Slice(da-m-(da-m)/2, db-m-(da-m)/2)
+	}
+	return root.Slice(sa, sb), root.Slice(da, db)
+}
+
 // checkSameRoot: source and destination are disjoint windows of one parent.
 func checkSameRoot(c *Case, e *convtab.Entry) (res kit.Result) {
 	C := c.C
 	total := c.Src.Kr + c.Dst.Kr
 	root := kit.AnyRoot(c.S, C, total)
-	src := root.Slice(c.Src.A, c.Src.B)
-	dst := root.Slice(c.Src.Kr+c.Dst.A, c.Src.Kr+c.Dst.B)
+	src, dst := nestedPair(root, total, c.Src.A, c.Src.B, c.Src.Kr+c.Dst.A, c.Src.Kr+c.Dst.B, c.Nest)
 	soff, sn := C*c.Src.A, C*(c.Src.B-c.Src.A)
 	doff, dn := C*(c.Src.Kr+c.Dst.A), C*(c.Dst.B-c.Dst.A)
 	for k := 0; k < sn; k++ {
@@ -247,6 +291,9 @@ func checkSameRoot(c *Case, e *convtab.Entry) (res kit.Result) {
 	}
 	if n > 0 {
 		res.Class("windowsOfOneParent")
+		if c.Nest > 0 {
+			res.Class("windowsOfWindowsOfOneParent")
+		}
 	}
 	// in place: the very same window as source and destination (through one header, then through a
 	// second header over the same frames). A same-type conversion is the identity on every sample
@@ -283,7 +330,7 @@ func FP(c *Case) uint64 {
 		h.Str(k)
 	}
 	if c.SameRoot {
-		h.Int(1)
+		h.Int(1 + c.Nest)
 	}
 	h.Ints([]int{c.C, c.Src.Kr, c.Src.A, c.Src.B, c.Src.Partial, c.Src.Fix, c.Dst.Kr, c.Dst.A, c.Dst.B, c.Dst.Partial, c.Dst.Fix})
 	for _, v := range c.Vals {
@@ -379,6 +426,7 @@ func Gen(t *rapid.T) *Case {
 	if e.S.Name == e.D.Name && rapid.Bool().Draw(t, "sameRoot") {
 		c.SameRoot = true
 		c.Src.Partial, c.Dst.Partial = 0, 0
+		c.Nest = rapid.IntRange(0, 4).Draw(t, "nest")
 		return c
 	}
 	if rapid.IntRange(0, 4).Draw(t, "dstFillSel") == 0 {
